@@ -920,6 +920,12 @@ func (e *Exec) sliceOp(th *Thread, fr *Frame, in *ssa.Slice) Value {
 		if in.Low == nil && in.High == nil {
 			return c
 		}
+		if in.High == nil && in.Low != nil {
+			// b[0:] is b (keeps the JSON tree of an encoded frame through ctxConn.Write's b[written:])
+			if lo, ok := e.eval(fr, in.Low).(*Term); ok && lo.IsConst() && lo.val == 0 {
+				return c
+			}
+		}
 		if c != nil && !c.nilb && c.n != nil {
 			return e.abufSlice(th, fr, in, c.n)
 		}
